@@ -9,6 +9,9 @@ fn main() {
     if id == "selfcheck-u256" {
         std::process::exit(mc::u256_selfcheck::run(&args[1..]));
     }
+    if id == "probe" {
+        std::process::exit(mc::probe::run(&args[1..]));
+    }
     let parsed = parse_args(&args[1..]);
     let reg = mc::registry();
     let Some(check) = reg.iter().find(|c| c.id() == id) else {
